@@ -437,7 +437,7 @@ func checkScopeMiddleware(w *World, r *Report, m string, p *packages.Package) {
 			bad = "CreateScope is called on " + exprStr(rcv) + ", not on the provider passed to ScopeMiddleware"
 		case fl.InLoop(fl.NodeContaining(csSite.Pos())):
 			bad = "CreateScope is called inside a loop"
-		case len(f.csCall.Args) != 1 || !(isRequestContext(info, f.csCall.Args[0], ctxParams) || derivedRequestContext(info, f.lit.Body, f.csCall.Args[0], ctxParams)):
+		case len(f.csCall.Args) != 1 || !(isRequestContext(info, f.csCall.Args[0], ctxParams) || derivedRequestContext(info, f.lit.Body, f.csCall.Args[0], ctxParams) || configuredRequestContext(info, f, f.csCall.Args[0])):
 			bad = "the argument of CreateScope (" + exprStr(f.csCall.Args[0]) + ") is not the request's own context"
 		}
 		r.Check(bad == "", "P1", pre+"#create", f.csCall.Pos(), true, "exactly one CreateScope(request context) on the captured provider, outside any loop", bad)
@@ -509,10 +509,39 @@ func checkScopeMiddleware(w *World, r *Report, m string, p *packages.Package) {
 			for range fl2.Names {
 				if k < len(c.Args) && objOf(info, c.Args[k]) == f.scope {
 					hfl := w.FlowOf(t)
-					hs := hfl.Solve(Spec{Must: true, Node: func(n ast.Node, in Facts) (gen, kill []string) {
+					closesIn := func(n ast.Node) bool {
 						for _, cc := range callsIn(n, false) {
 							if rcv, name, ok := methodCall(cc); ok && name == "Close" && isScopeTyped(rcv) {
-								gen = append(gen, "closed")
+								return true
+							}
+						}
+						return false
+					}
+					hinfo := t.Pkg.TypesInfo
+					hs := hfl.Solve(Spec{Must: true, Node: func(n ast.Node, in Facts) (gen, kill []string) {
+						if closesIn(n) {
+							gen = append(gen, "closed")
+						}
+						// go func() { … scope.Close() … }(): the close is issued here, once, when the literal
+						// closes the scope on every way through it (a bounded wait for it may follow)
+						if gs, isGo := n.(*ast.GoStmt); isGo {
+							if lit, isLit := unparen(gs.Call.Fun).(*ast.FuncLit); isLit {
+								lfl := newFlowInfo(hinfo, lit.Body)
+								ls := lfl.Solve(Spec{Must: true, Node: func(m ast.Node, in Facts) (gen, kill []string) {
+									if closesIn(m) {
+										gen = append(gen, "closed")
+									}
+									return
+								}})
+								allExits := true
+								for _, ex := range lfl.Exits() {
+									if !ex.Panic && !ls.AtExit(ex).Has("closed") {
+										allExits = false
+									}
+								}
+								if allExits {
+									gen = append(gen, "closed")
+								}
 							}
 						}
 						return
@@ -1772,4 +1801,26 @@ func callbackResult(info *types.Info, f *mwFacts, ro types.Object) bool {
 		return true
 	})
 	return n == 1 && good
+}
+
+// configuredRequestContext: the creation context is what the configuration makes
+// of this request - cfg.scopeContext(r), cfg.ScopeContext(r) - a method or a
+// function-typed field of the configuration that is handed the request (or a
+// local bound to such a call).
+func configuredRequestContext(info *types.Info, f *mwFacts, e ast.Expr) bool {
+	e = resolveLocal(info, f.lit.Body, e, 2)
+	c, ok := unparen(e).(*ast.CallExpr)
+	if !ok || f.cfg == nil {
+		return false
+	}
+	sel, ok := unparen(c.Fun).(*ast.SelectorExpr)
+	if !ok || objOf(info, sel.X) != f.cfg {
+		return false
+	}
+	for _, a := range c.Args {
+		if root := rootIdent(a); root != nil && (f.params[info.Uses[root]] || f.outer[info.Uses[root]]) {
+			return true
+		}
+	}
+	return false
 }
